@@ -20,7 +20,9 @@ git apply $D/patch.diff
 rm -f $W/$DEMODIR/zz_demo_test.go
 VERIF_REPO=$W ${VDIR:-/verif}/baseline_off.sh > /tmp/suite_mut.txt 2>&1; SU=$?
 echo "demo on clean tree: rc=$DC (want 0) | demo with mutant: rc=$DM (want !=0) | suite with mutant: rc=$SU (want 0)"
+EV=${VDIR:-/verif}/evidence/$P.json; cp $EV /tmp/evidence_keep_$$.json 2>/dev/null   # (evidence of a run against a changed tree is never kept)
 cd ${VDIR:-/verif} && VERIF_REPO=$W python3 check.py $P --tier $TIER > /tmp/check_mut.txt 2>&1; RC=$?
+[ -f /tmp/evidence_keep_$$.json ] && mv /tmp/evidence_keep_$$.json $EV
 echo "check $P $TIER exit=$RC"; grep -m4 "VIOLATION\|MACHINERY" /tmp/check_mut.txt; grep -A1 -m2 "VIOLATION" /tmp/check_mut.txt | grep "^   " | cut -c1-300
 cd /; git -C /repo worktree remove --force $W
 exit 0
